@@ -31,4 +31,14 @@ impl<I: Iterator, F: Fn(I::Item) -> ControlFlow<I::Item, I>> Iterator for Stack<
             }
         }
     }
+
+    fn size_hint(&self) -> (usize, Option<usize>) {
+        // once the stack is empty, nothing is left to yield;
+        // this allows an enclosing stack not to keep exhausted stacks
+        if self.0.is_empty() {
+            (0, Some(0))
+        } else {
+            (0, None)
+        }
+    }
 }
